@@ -19,7 +19,7 @@ EXPLANATION = ("(R1) every Manager state but the stopping/stopped ones declares 
                "and listen() wait on; versions seen before dilate() are forwarded to the late manager. (R5) resource registration: "
                "every protocol built for a Connector (outbound and inbound) is tracked in the collection that stop/selection "
                "disconnect, and leaves it only when selected, disconnected or on break_cycles. Eventual transport loss is trusted.")
-TRUSTED_BASE = ["T1", "T2", "T3", "T4"]
+TRUSTED_BASE = ["T1", "T2", "T3", "T4", "T5"]
 MIN_OBLIGATIONS = 25
 
 MGR = "src/wormhole/_dilation/manager.py"
@@ -432,6 +432,23 @@ def r9(tree, prog, rep):
         raise AnalysisError("no caller of Manager.stop found")
 
 
+def r10(tree, rep, tier):
+    """stop() in the two-party product (engine A5): from every joint state reached after stop() the Manager of that side can reach its
+    terminal state, without internal failure, and arrives there with nothing left running"""
+    from .. import a5common
+    sums = a5common.explorations(tree, tier, rep)
+    a5common.fill_extra(rep, sums)
+    a5common.report(rep, "C17.R10", sums, a5common.INTERNAL + ("stopped-with-live-connector", "stopped-with-timer", "stopped-with-connection",
+                                                             "stopped-with-pending"))
+    for envname, s in sums.items():
+        for x, role in (("L", "Leader"), ("F", "Follower")):
+            bad = s.stop_stuck.get(x, [])
+            rep.check("C17.R10", "two-party environment '%s': from each of the %d joint states after the %s's stop() its Manager can reach its terminal state"
+                      % (envname, s.stop_states.get(x, 0), role), not bad, key="C17.R10:stop-completes:%s:%s" % (role, envname),
+                      what="after stop() the %s's Manager can get stuck before its terminal state (the Terminator waits for it forever), e.g. after %s in %s"
+                           % (role, bad[0][0] if bad else "?", bad[0][1] if bad else "?"))
+
+
 def run(tree, rep, tier):
     prog = Program(tree)
     r1_r2(prog, rep)
@@ -442,6 +459,7 @@ def run(tree, rep, tier):
     r5(tree, rep)
     r6(tree, rep)
     r7(tree, rep, tier)
+    r10(tree, rep, tier)
 
 
 MUTANTS = [
